@@ -48,6 +48,17 @@ class NotAnInt:
     pass
 
 
+class CallableObject:
+    def __init__(self, ran, pass_exc):
+        self.ran, self.pass_exc = ran, pass_exc
+
+    def __call__(self, *args):
+        if self.pass_exc:
+            self.ran("none" if args[0] is None else describe(args[0]))
+        else:
+            self.ran("noarg")
+
+
 class Awaitable:
     """awaitable, but neither a coroutine nor a future"""
 
@@ -125,6 +136,9 @@ async def do_action(a, who):
                                               pass_exception=True)
                 else:
                     ctx.add_teardown_callback(lambda: later("noarg"))
+            elif cid % 5 == 4:
+                # a callable object (no __name__ / __qualname__) is a callback like any other
+                ctx.add_teardown_callback(CallableObject(ran, pass_exc), pass_exception=pass_exc)
             elif pass_exc:
                 ctx.add_teardown_callback(lambda exc: ran("none" if exc is None else describe(exc)), pass_exception=True)
             else:
